@@ -90,6 +90,16 @@ impl Vm {
       } else {
         self.inline_cache.push(cache);
       }
+
+      #[cfg(feature = "verif")]
+      crate::verif::dump_module(
+        module.id(),
+        module.path(),
+        repl,
+        self.inline_cache[module.id()].property_slots(),
+        self.inline_cache[module.id()].invoke_slots(),
+      );
+
       self.manage_obj(fun)
     })
   }
